@@ -35,8 +35,9 @@ def run(tier, seed):
     # the rule is independent of every other field of the authenticator data: flag bytes with/without UV, BE, BS, ED, reserved bits
     FLAGS = [0x05, 0x01, 0x0D, 0x1D, 0x09, 0x85, 0x27, 0x19]
 
-    def present(s_stored, c, kind="ES256-P256", form=None, flags=0x05, ruv=None):
+    def present(s_stored, c, kind="ES256-P256", form=None, flags=0x05, ruv=None, attachment=None):
         pol, a = assertion(c, kind, flags)
+        a.attachment = attachment
         if form is None:
             form = ("dict", "record", "text")[(s_stored + c) % 3]
         if ruv is None:
@@ -48,7 +49,7 @@ def run(tier, seed):
         import cbor2 as _cbor2
         lure = authsim.authdata(pol.rp_id, 0x45, min(max(s_stored, 0) + 1, 2 ** 32 - 1), aaguid=bytes(16), cred_id=a.cred_id, cose_bytes=a.cred.cose_bytes)
         a.extra_response = {"attestationObject": authsim.b64u(_cbor2.dumps({"fmt": "none", "attStmt": {}, "authData": lure})), "authData": authsim.b64u(lure), "signCount": s_stored + 1}
-        il, ml = B.run_case(pol, a, form, "accept" if should else "reject", f"counter s={s_stored} c={c}" + ("" if flags == 0x05 else f" flags={flags:#x}") + (" uv-required" if ruv else ""))
+        il, ml = B.run_case(pol, a, form, "accept" if should else "reject", f"counter s={s_stored} c={c}" + ("" if flags == 0x05 else f" flags={flags:#x}") + (" uv-required" if ruv else "") + (f" attachment={attachment}" if attachment else ""))
         if il.startswith("OK"):
             new = fw.rd_i(il.split()[2])
             if new != c:
@@ -78,6 +79,9 @@ def run(tier, seed):
             present(s, c, flags=fl)
             if fl & 0x04:
                 present(s, c, flags=fl, ruv=True)
+            # ... and of the UNSIGNED members of the response (the attachment hint)
+            for att in ("platform", "cross-platform"):
+                present(s, c, flags=fl, attachment=att, form=("dict", "record", "text")[(s + c + len(att)) % 3])
     # assertions carrying extension data that is valid but non-canonical CBOR: whatever the parser makes of them, an ACCEPTED one obeys the rule
     for ext in (b"\xbf\x6bcredProtect\x02\xff", b"\xb8\x01\x6bcredProtect\x02", b"\xa1\x78\x0bcredProtect\x18\x02", b"\xa1\x6bcredProtect\x19\x00\x02", b"\xbf\xff", b"\xa1\x6bcredProtect\x02\x00"):
         for (st, c) in [(0, 0), (10, 5), (5, 5), (4, 5), (B31, 1), (B32 - 1, 0), (0, B32 - 1), (1, 2)]:
